@@ -28,12 +28,13 @@ func dbInv(prevStart, prevEnd, n int, baseOffset int64) bool {
 
 //@ func (*decodeBuffer).needMore
 //@ inline
+//@ requires d != nil
 //@ property C05 C20
 //@ ensures result == (pos == len(d.buf))
 
 //@ func (*decodeBuffer).offsetAt
 //@ property C05 C16 C20
-//@ requires d != nil && 0 <= d.baseOffset && d.baseOffset < 1<<61 && 0 <= pos
+//@ requires d != nil && 0 <= d.baseOffset && d.baseOffset < 1<<61 && 0 <= pos && pos < 1<<61
 //@ ensures result == d.baseOffset+int64(pos)
 
 //@ func (*decodeBuffer).previousOffsetStart
